@@ -921,24 +921,22 @@ func (env *Env) specFromContract(fn *ssa.Function, ct *Contract, key string, val
 
 // ---------------------------------------------------------------- spec functions
 
+type specRegion struct {
+	key   string
+	sort  Sort // inner array sort
+	param int
+}
+
 type specInst struct {
 	fname   string
-	keys    []string // heap keys read (in order)
+	keys    []string // heap maps passed whole (in order)
 	ksorts  []Sort
+	regions []specRegion // region arrays (select M rid) passed instead of the whole map
 	psorts  []Sort
 	ret     Sort
 	retTy   types.Type
 	ptypes  []types.Type
 	defined bool
-}
-
-func (env *Env) specPkg(sp *SpecFn) *types.Package {
-	for path, p := range env.e.w.pkgs {
-		if strings.TrimPrefix(path, modPrefix) == sp.PkgRel {
-			return p.Types
-		}
-	}
-	return env.pkg
 }
 
 func (env *Env) callSpec(sp *SpecFn, args []ast.Expr) Val {
@@ -960,10 +958,26 @@ func (env *Env) callSpec(sp *SpecFn, args []ast.Expr) Val {
 	return e.applySpec(inst, env.st, vals)
 }
 
+func ridOf(v Val) (Term, bool) {
+	switch x := v.(type) {
+	case SliceV:
+		return x.Rid, true
+	case PtrV:
+		if x.Local == nil {
+			return x.Rid, true
+		}
+	}
+	return Term{}, false
+}
+
 func (e *Engine) applySpec(inst *specInst, st *State, vals []Val) Val {
 	var ts []Term
 	for i, k := range inst.keys {
 		ts = append(ts, e.heapGetRaw(st, k, inst.ksorts[i]))
+	}
+	for _, r := range inst.regions {
+		rid, _ := ridOf(vals[r.param])
+		ts = append(ts, Select(e.heapGetRaw(st, r.key, SArr(SInt, r.sort)), rid))
 	}
 	for _, v := range vals {
 		ts = append(ts, dynTerms(v)...)
@@ -975,6 +989,8 @@ func (e *Engine) applySpec(inst *specInst, st *State, vals []Val) Val {
 }
 
 // specInstance declares the spec function (with its heap dependencies) and emits its defining axiom.
+// Heap reads of the form M[p.rid][..] through a parameter p are abstracted to a region-array argument
+// (select M p.rid), so that allocation of, and writes to, other regions leave applications syntactically equal.
 func (e *Engine) specInstance(sp *SpecFn) *specInst {
 	id := sp.PkgRel + "." + sp.Name
 	if inst, ok := e.specDone[id]; ok {
@@ -1011,7 +1027,6 @@ func (e *Engine) specInstance(sp *SpecFn) *specInst {
 		panic(evalError{"spec " + id + " must return a scalar"})
 	}
 	e.specDone[id] = inst
-	// discover heap keys by evaluating the body with a probe heap (iterate for recursion)
 	mkParams := func() ([]Val, []Term) {
 		var vals []Val
 		var all []Term
@@ -1040,12 +1055,28 @@ func (e *Engine) specInstance(sp *SpecFn) *specInst {
 		inst.defined = true
 		return inst
 	}
-	var body Term
-	for iter := 0; iter < 4; iter++ {
-		probe := &State{cells: map[*ssa.Alloc]*Cell{}, heap: map[string]Term{}, alloc: Term{"alloc!probe", SInt}, guard: TTrue, base: "H!"}
-		for i, k := range inst.keys {
-			probe.heap[k] = Term{smtName("H!" + k), inst.ksorts[i]}
+	hname := func(k string) string { return smtName("H!" + k) }
+	rname := func(k string, p int) string { return smtName(fmt.Sprintf("R!%s!%s", k, pnames[p])) }
+	hasKey := func(k string) bool {
+		for _, k0 := range inst.keys {
+			if k0 == k {
+				return true
+			}
 		}
+		return false
+	}
+	hasRegion := func(k string, p int) bool {
+		for _, r := range inst.regions {
+			if r.key == k && r.param == p {
+				return true
+			}
+		}
+		return false
+	}
+	var body string
+	done := false
+	for iter := 0; iter < 8 && !done; iter++ {
+		probe := &State{cells: map[*ssa.Alloc]*Cell{}, heap: map[string]Term{}, alloc: Term{"alloc!probe", SInt}, guard: TTrue, base: "H!"}
 		vals, _ := mkParams()
 		env := &Env{e: e, st: probe, bound: map[string]Val{}, pkg: pkg, pkgRel: sp.PkgRel, qdepth: 1}
 		for i, pn := range pnames {
@@ -1057,39 +1088,94 @@ func (e *Engine) specInstance(sp *SpecFn) *specInst {
 		e.quiet++
 		bv := env.typed(env.eval(sp.Body), rt)
 		e.quiet--
-		// remove probe declarations (H!... via baseGet)
-		var newKeys []string
+		touched := map[string]bool{}
 		for k := range probe.heap {
-			found := false
-			for _, k0 := range inst.keys {
-				if k0 == k {
-					found = true
-				}
-			}
-			if !found {
-				newKeys = append(newKeys, k)
-			}
+			touched[k] = true
 		}
 		e.rollbackDeclsWithPrefix(snap, "H!")
-		if len(newKeys) == 0 {
-			body = e.scalar(bv)
-			break
+		body = e.scalar(bv).S
+		// replace region patterns
+		for _, r := range inst.regions {
+			rid, _ := ridOf(vals[r.param])
+			body = strings.ReplaceAll(body, "(select "+hname(r.key)+" "+rid.S+")", rname(r.key, r.param))
 		}
-		sortStrings(newKeys)
-		for _, k := range newKeys {
-			inst.keys = append(inst.keys, k)
-			inst.ksorts = append(inst.ksorts, keySorts[k+"|"+e.ar.mode.String()])
+		changed := false
+		for _, k := range sortedKeys(touched) {
+			if !strings.Contains(body, hname(k)) {
+				continue
+			}
+			// try to regionise through each reference parameter
+			for pi, v := range vals {
+				rid, ok := ridOf(v)
+				if !ok || hasRegion(k, pi) {
+					continue
+				}
+				pat := "(select " + hname(k) + " " + rid.S + ")"
+				if strings.Contains(body, pat) {
+					full := keySorts[k+"|"+e.ar.mode.String()]
+					inst.regions = append(inst.regions, specRegion{key: k, sort: arrElemSort(full), param: pi})
+					body = strings.ReplaceAll(body, pat, rname(k, pi))
+					changed = true
+				}
+			}
+			if strings.Contains(body, hname(k)) && !hasKey(k) {
+				inst.keys = append(inst.keys, k)
+				inst.ksorts = append(inst.ksorts, keySorts[k+"|"+e.ar.mode.String()])
+				changed = true
+			}
+		}
+		if !changed {
+			done = true
 		}
 	}
-	if body.S == "" {
+	if !done {
 		panic(evalError{"spec " + id + ": heap dependencies did not stabilise"})
+	}
+	// drop whole-map parameters that the final body no longer mentions
+	var keys []string
+	var ksorts []Sort
+	for i, k := range inst.keys {
+		if strings.Contains(body, hname(k)) {
+			keys = append(keys, k)
+			ksorts = append(ksorts, inst.ksorts[i])
+		}
+	}
+	if len(keys) != len(inst.keys) {
+		// layout changed after the last evaluation: recursive applications inside body used the old layout
+		inst.keys, inst.ksorts = keys, ksorts
+		delete(e.specDone, id)
+		// re-run once with the final layout fixed
+		e.specDone[id] = inst
+		probe := &State{cells: map[*ssa.Alloc]*Cell{}, heap: map[string]Term{}, alloc: Term{"alloc!probe", SInt}, guard: TTrue, base: "H!"}
+		vals, _ := mkParams()
+		env := &Env{e: e, st: probe, bound: map[string]Val{}, pkg: pkg, pkgRel: sp.PkgRel, qdepth: 1}
+		for i, pn := range pnames {
+			env.bound[pn] = vals[i]
+		}
+		snap := e.snap()
+		e.quiet++
+		bv := env.typed(env.eval(sp.Body), rt)
+		e.quiet--
+		e.rollbackDeclsWithPrefix(snap, "H!")
+		body = e.scalar(bv).S
+		for _, r := range inst.regions {
+			rid, _ := ridOf(vals[r.param])
+			body = strings.ReplaceAll(body, "(select "+hname(r.key)+" "+rid.S+")", rname(r.key, r.param))
+		}
+		for _, k := range sortedKeys(map[string]bool{}) {
+			_ = k
+		}
 	}
 	_, all := mkParams()
 	var params []Term
 	var sorts []Sort
 	for i, k := range inst.keys {
-		params = append(params, Term{smtName("H!" + k), inst.ksorts[i]})
+		params = append(params, Term{hname(k), inst.ksorts[i]})
 		sorts = append(sorts, inst.ksorts[i])
+	}
+	for _, r := range inst.regions {
+		params = append(params, Term{rname(r.key, r.param), r.sort})
+		sorts = append(sorts, r.sort)
 	}
 	params = append(params, all...)
 	for _, t := range all {
@@ -1097,11 +1183,12 @@ func (e *Engine) specInstance(sp *SpecFn) *specInst {
 	}
 	inst.psorts = sorts
 	e.declareFun("spec:"+id, sorts, inst.ret)
+	bodyT := Term{body, inst.ret}
 	if len(params) == 0 {
-		e.assumps = append(e.assumps, Assump{Eq(Term{inst.fname, inst.ret}, body)})
+		e.assumps = append(e.assumps, Assump{Eq(Term{inst.fname, inst.ret}, bodyT)})
 	} else {
 		ap := app(inst.ret, inst.fname, params...)
-		e.assumps = append(e.assumps, Assump{Forall(params, Eq(ap, body), []Term{ap})})
+		e.assumps = append(e.assumps, Assump{Forall(params, Eq(ap, bodyT), []Term{ap})})
 	}
 	inst.defined = true
 	return inst
